@@ -15,10 +15,14 @@ const FILES: &[(&str, &str, bool)] = &[
     // many distinct references of every kind from one file: their emission order must be the source order
     ("f", "<import src=\"a\"/><import src=\"b\"/><import src=\"c\"/><import src=\"d\"/><import src=\"x/y\"/><import src=\"z\"/><wxs module=\"m1\" src=\"e.wxs\"/><wxs module=\"m2\" src=\"lib/u.wxs\"/><wxs module=\"m3\">exports.h = 2</wxs><include src=\"a\"/><include src=\"c\"/><template name=\"t1\">1</template><template name=\"t2\">2</template><template name=\"t3\">3</template><template is=\"t\"/><view bind:tap=\"h1\" catch:tap=\"h2\" data-a=\"{{r}}\" data-b=\"{{s}}\" mark:a=\"{{t}}\" mark:b=\"{{u}}\" class=\"{{ca}} {{cb}}\">{{m1.g}}{{m2.g}}{{m3.h}}</view>", false),
 ];
-const BOUND: &str = "6 files (one with 6 imports, 3 script modules, 2 includes, 3 sub-templates, several attributes of every kind); every subset of 3 and 4 files in every insertion order, compiled twice; plus split-and-import_group of each subset";
+const BOUND: &str = "6 files (one with 6 imports, 3 script modules, 2 includes, 3 sub-templates, several attributes of every kind); in normal and dev mode; every subset of 3 and 4 files in every insertion order, compiled twice; plus split-and-import_group of each subset";
 
 fn emit(files: &[usize], import_split: Option<usize>) -> String {
-    let mut g = TmplGroup::new();
+    // both modes: the dev-mode extras (attribute-name lists, source locations for the runtime) are part of the output too
+    format!("{}\n==dev==\n{}", emit_mode(files, import_split, false), emit_mode(files, import_split, true))
+}
+fn emit_mode(files: &[usize], import_split: Option<usize>, dev: bool) -> String {
+    let mut g = if dev { TmplGroup::new_dev() } else { TmplGroup::new() };
     let add = |g: &mut TmplGroup, i: usize| {
         let (p, c, script) = FILES[i];
         if script { g.add_script(p, c); } else { g.add_tmpl(p, c); }
@@ -26,7 +30,7 @@ fn emit(files: &[usize], import_split: Option<usize>) -> String {
     match import_split {
         None => for i in files { add(&mut g, *i); },
         Some(k) => {
-            let mut g2 = TmplGroup::new();
+            let mut g2 = if dev { TmplGroup::new_dev() } else { TmplGroup::new() };
             for i in &files[..k] { add(&mut g, *i); }
             for i in &files[k..] { add(&mut g2, *i); }
             g.import_group(&g2);
@@ -58,13 +62,17 @@ fn perms(v: &[usize]) -> Vec<Vec<usize>> {
     }
     out
 }
-fn norm(s: &str, files: &[usize]) -> String {
+fn norm1(s: &str) -> String {
     // per-template sections are emitted in the order asked: compare them as a sorted multiset
     let mut parts: Vec<&str> = s.split("\n--tmpl--\n").collect();
     let head = parts.remove(0).to_string();
     parts.sort();
-    let _ = files;
     format!("{}\n{}", head, parts.join("\n"))
+}
+fn norm(s: &str, files: &[usize]) -> String {
+    let _ = files;
+    // the normal-mode and the dev-mode outputs, each normalised on its own
+    s.split("\n==dev==\n").map(norm1).collect::<Vec<_>>().join("\n==dev==\n")
 }
 fn first_diff(a: &str, b: &str) -> String {
     let i = a.bytes().zip(b.bytes()).position(|(x, y)| x != y).unwrap_or(a.len().min(b.len()));
